@@ -1,4 +1,6 @@
 import PicoProofs.DecSafe
+import PicoProofs.GoTieApi
+import PicoProofs.GoTieWire
 import PicoProofs.Tie
 /-
 C04 — Unmarshal is total and memory-safe on arbitrary bytes.
@@ -38,6 +40,28 @@ input is shorter than the nesting fuel (the invariant behind the 10 000-levels c
 payload is strictly shorter than its parent) -/
 theorem C04_pass_total (S : Schema) (fuel id : Nat) : Dec.PassBelow fuel (decPass S fuel id) :=
   decPass_ok S fuel id
+
+/-- the same about the Go source itself. `GoSrc.Decoder.Unmarshal` / `Loop` / `nextField` / … are the
+statement-level translations of message.go and decoder.go, regenerated from the working tree on
+every run (every slice expression checked, every loop on fuel); the wire primitives they call are
+the model's, which `C04_source_wire` ties to the translation of wire.go. With the generated `Decode`
+of ANY message type as the callback, the translated `Unmarshal` never panics and never runs out of
+fuel, for every byte string. -/
+theorem C04_source_unmarshal_total (S : Schema) (id : Nat) (data : Bytes) (m0 : Val) :
+    ∃ m err, GoTie.srcUnmarshal S id data m0 = .ok (m, err) := by
+  obtain ⟨d, m, h⟩ := unmarshal_total S id data m0
+  exact ⟨m, d.err, GoTie.srcUnmarshal_of S id data m0 d m h⟩
+
+/-- the translated wire.go primitives the decoder rests on equal the model's, on every input shorter
+than 2^63 bytes: the unrolled `ConsumeVarint`, `ConsumeBytes`, `ConsumeTag`, and the recursive
+`consumeFieldValueD` with its group loop and recursion limit -/
+theorem C04_source_wire (b : Bytes) (hb : b.length < 9223372036854775808) (num : Int) (typ : Nat) :
+    GoSrc.Wire.consumeVarint b = .ok (Wire.consumeVarint b) ∧
+    GoSrc.Wire.consumeBytes b = .ok (Wire.consumeBytes b) ∧
+    GoSrc.Wire.consumeTag b = .ok (Wire.consumeTag b) ∧
+    GoSrc.Wire.consumeFieldValue num typ b = .ok (Wire.consumeFieldValue num typ b) :=
+  ⟨GoTie.W.consumeVarint_eq b, GoTie.W.consumeBytes_eq b hb, GoTie.W.consumeTag_eq b,
+    GoTie.W.consumeFieldValue_eq num typ b hb⟩
 
 /-- never modifies the input: the decoder model has no write primitive on the buffer, and the
 regenerated store facts show the Go code has none either (no `dec.buffer[i] = …`, no `copy` into
